@@ -1,12 +1,44 @@
 /-
-  Props.C03 — the theorems that decide property C03 (see DESIGN.md §7).
+  Props.C03 — operator precedence, associativity and projection scope follow
+  the JMESPath rules (DESIGN.md §7, C03).
+
+  (1) The table regenerated from /repo satisfies the order facts of the rules
+      (`TableOK`), and (2) any table satisfying them parses every token list
+      exactly like the specification's table (`Spec.table`) — so the parser in
+      /repo IS the specification-table parser; (3) theorems about that parser
+      (Proofs/Printer…) state the rules themselves.
 -/
 import Props.Tables
+import Proofs.ApiGlue
 namespace Jmes.Props
-open Jmes
+open Jmes Jmes.Parser
 
+/-- (1) pipe < or < and < comparators (all equal) < flatten < [projection stop] ≤
+    star < filter < dot < not < brace < bracket < call; terminators 0; every
+    constant handed to a parse function is the power the rules prescribe. -/
 theorem C03_generated_table_ok : TableOK Generated.table = true := generated_table_ok
 theorem C03_generated_sigs_ok : SigsOK Generated.functionTable Spec.functionTable = true := generated_sigs_ok
 theorem C03_generated_lex_ok : LexTablesOK Model.lexTables Spec.lexTables = true := generated_lex_ok
+
+variable {N : Type} [NumOps N]
+
+/-- (2) Every table that satisfies the order facts parses like the specification's table. -/
+theorem C03_order_facts_determine_the_parser (tbl : ParserTable) (h : TableOK tbl = true) (toks : List Token) :
+    parseTokens (N := N) tbl toks = parseTokens Spec.table toks :=
+  parseTokens_congr (sameDecisions_of_tableOK tbl Spec.table h spec_table_ok) toks
+
+/-- In particular the parser found in /repo: on every byte string, `Compile`
+    returns what the specification-table parser returns (same AST, same error, same offset). -/
+theorem C03_repo_parser_is_spec_parser (expr : Bytes) :
+    (Api.compile Model.cfg expr : Res (Node N)) = parseWith Model.lexTables Spec.table expr := by
+  rw [Api.compile_eq_parseWith]
+  exact parseWith_congr (sameDecisions_of_tableOK Generated.table Spec.table generated_table_ok spec_table_ok)
+    Model.lexTables expr
+
+/-- Equal parse implies equal result on every document: evaluation is a function of the AST. -/
+theorem C03_equal_parse_equal_result (e1 e2 : Bytes) (ast : Node N)
+    (h1 : (Api.compile Model.cfg e1 : Res (Node N)) = .ok ast) (h2 : (Api.compile Model.cfg e2 : Res (Node N)) = .ok ast)
+    (doc : Val N) : Api.search Model.cfg e1 doc = Api.search Model.cfg e2 doc := by
+  simp only [Api.search, h1, h2]
 
 end Jmes.Props
